@@ -6,7 +6,9 @@ use std::collections::BTreeMap;
 
 pub mod common;
 pub mod c01;
+pub mod c03;
 pub mod c08;
+pub mod c09;
 pub mod c15;
 pub mod c17;
 pub mod c18;
@@ -103,7 +105,7 @@ pub trait Prop: Sync + Send {
 }
 
 pub fn registry() -> Vec<Box<dyn Prop>> {
-    vec![Box::new(c01::C01), Box::new(c08::C08), Box::new(c15::C15), Box::new(c17::C17), Box::new(c18::C18)]
+    vec![Box::new(c01::C01), Box::new(c03::C03), Box::new(c08::C08), Box::new(c09::C09), Box::new(c15::C15), Box::new(c17::C17), Box::new(c18::C18)]
 }
 
 pub fn find(id: &str) -> Option<Box<dyn Prop>> {
